@@ -451,6 +451,50 @@ def retype_pass(ctx):
             return
 
 
+def literal_default_pass(ctx):
+    """a default given as a literal of a user data type whose from_string builds a mutable value (a list written '1,2,3',
+    a dict written as JSON): every object reads its own; changing one in place changes neither what another object reads,
+    nor what a later object starts with, nor what del restores, nor what the declaration says"""
+    import json as _json
+    from pyecore import ecore as E
+    kinds = [('list', '1,2,3', lambda s: s.split(','), lambda v: ','.join(v), lambda v: v.append('x')),
+             ('dict', '{"a": 1}', _json.loads, _json.dumps, lambda v: v.__setitem__('b', 2)),
+             ('bytearray', '0102', bytearray.fromhex, lambda v: v.hex(), lambda v: v.append(7))]
+    for k in range(12 if ctx.quick() else 120):
+        rng = common.sub_rng(ctx.seed, 'C15', 'literal-default', k)
+        name, lit, frm, to, mutate = kinds[k % len(kinds)]
+        T = E.EDataType('T' + name, {'list': list, 'dict': dict, 'bytearray': bytearray}[name], from_string=frm, to_string=to)
+        A = E.EClass('A')
+        f = E.EAttribute('w', T, defaultValueLiteral=lit)
+        A.eStructuralFeatures.append(f)
+        fresh = lambda: frm(lit)
+        a, b = A(), A()
+        if rng.random() < .5:
+            _ = b.w                     # read before or after the other one is changed
+        mutate(a.w)
+        c = A()
+        ctx.evaluations += 1
+        ctx.count('literal-default/' + name)
+        ctx.nontriv(('literal-default', k))
+        problems = []
+        if b.w != fresh():
+            problems.append(f'another object reads {b.w!r}')
+        if c.w != fresh():
+            problems.append(f'an object created afterwards starts with {c.w!r}')
+        if f.get_default_value() != fresh():
+            problems.append(f'the declaration now says {f.get_default_value()!r}')
+        del a.w
+        if a.w != fresh():
+            problems.append(f'del restores {a.w!r}')
+        if b.eIsSet('w') or c.eIsSet('w'):
+            problems.append('reading set the feature')
+        if problems:
+            ctx.violate({'clause': 'default-shared', 'trigger': 'none', 'literal': True},
+                        f'default literal {lit!r} of a {name}-valued data type, one object changed in place: ' + '; '.join(problems),
+                        {'literal_default': k, 'kind': name})
+            return
+
+
 def readd_pass(ctx):
     """a feature that leaves its class and comes back (the same declaration removed and added again, or a new one of the
     same name): on the instances that had set it, it has never been set — default, eIsSet false, nothing to save"""
@@ -527,6 +571,7 @@ def run(ctx):
     single_reject_pass(ctx)
     retype_pass(ctx)
     readd_pass(ctx)
+    literal_default_pass(ctx)
     out = common.run_driver('dflt', model_in)
     bad = set()
     for line, exp, got in zip(model_in, expect, out):
